@@ -71,6 +71,31 @@ fn p_call_moves_item_once() {
     drop(slot);
     assert!(drops() == 1, "C15 item dropped exactly once");
 }
+struct Pz;
+impl Drop for Pz { fn drop(&mut self) { unsafe { DROPS += 1 } } }
+#[repr(align(64))]
+struct Pal { v: u32, heap: Box<u8> }
+impl Drop for Pal { fn drop(&mut self) { unsafe { DROPS += 1 } } }
+fn call_class<T>(mk: fn() -> T) {
+    let keep: bool = kani::any();
+    let mut slot: Option<T> = None;
+    let mut f = |d: T| { if keep { slot = Some(d); } true };
+    let mut cb: OpaqueCallback<T> = (&mut f).into();
+    let _ = cb.call(mk());
+    drop(cb);
+    assert!(drops() == !keep as u32 && slot.is_some() == keep, "C15 the item is moved into the closure exactly once (any item class)");
+    drop(slot);
+    assert!(drops() == 1, "C15 item dropped exactly once (any item class)");
+    let mut v: Vec<T> = Vec::new();
+    let mut cb: OpaqueCallback<T> = (&mut v).into();
+    assert!(cb.call(mk()), "C15 vector callback continues (any item class)");
+    drop(cb);
+    assert!(v.len() == 1 && drops() == 1, "C15 the vector holds the offered item, nothing dropped (any item class)");
+    drop(v);
+    assert!(drops() == 2);
+}
+#[kani::proof] fn p_call_class_zst_drop() { call_class::<Pz>(|| Pz); kani::cover!(true, "end"); }
+#[kani::proof] fn p_call_class_aligned() { call_class::<Pal>(|| Pal { v: 1, heap: Box::new(1) }); kani::cover!(true, "end"); }
 //@ prefix=p_vec kind=property clause=collecting callbacks: From<&mut Vec<T>> pushes exactly the offered item and continues; from_extend() extends the collection by exactly the offered item and continues
 #[kani::proof]
 fn p_vec_callback() {
